@@ -151,6 +151,29 @@ func (seg *Segment) IsAmbiguous(s2 *Segment) bool {
 		(seg.Endpoint == s2.Endpoint && seg.Type == s2.Type && seg.rule == s2.rule && seg.Suffix == s2.Suffix)
 }
 
+// AmbiguousPrefix 判断 seg 与 s2 的起始部分是否存在歧义
+//
+// 与 [Segment.IsAmbiguous] 不同的是，seg 可以是被拆分之后的节点，
+// 此时 seg.Suffix 只是 s2.Suffix 的前半部分，比如 {id}/ 与 {uid}/author。
+// 返回 s2.Value 中与 seg 存在歧义的内容长度。
+func (seg *Segment) AmbiguousPrefix(s2 *Segment) (int, bool) {
+	if seg.Type == String || seg.Type != s2.Type || seg.rule != s2.rule {
+		return 0, false
+	}
+	if seg.ignoreName == s2.ignoreName && seg.Name == s2.Name { // 同一个参数
+		return 0, false
+	}
+
+	if seg.Suffix == "" { // 参数为路由项的最后一部分
+		if s2.Suffix != "" {
+			return 0, false
+		}
+	} else if !strings.HasPrefix(s2.Suffix, seg.Suffix) {
+		return 0, false
+	}
+	return len(s2.Value) - len(s2.Suffix) + len(seg.Suffix), true
+}
+
 func (seg *Segment) AmbiguousLen() int16 {
 	return seg.ambiguousLength + int16(len(seg.Name))
 }
